@@ -114,11 +114,11 @@ def scenario(idx, classes, parent, missing, methods, defs):
 
 
 def program(name, scenarios):
-    o = [gen.PRELUDE, COMMON]
+    o = [gen.PRELUDE, gen.PRELUDE_DEATH, COMMON]
     for sc in scenarios:
         o.append(scenario(*sc))
     o.append("int main() {")
-    o.append("    std::setvbuf(stdout, nullptr, _IOLBF, 1 << 16);")
+    o.append(gen.MAIN_DEATH)
     o.append('    std::printf("{\\"e\\":\\"reset\\",\\"script\\":\\"%s\\",\\"bindings\\":[\\"gen\\"]}\\n");' % name)
     o.append("    yorel::yomm2::set_error_handler([](const yorel::yomm2::error_type& ev) {")
     o.append("        if (auto e = std::get_if<yorel::yomm2::resolution_error>(&ev)) throw *e;")
